@@ -36,7 +36,7 @@ def plan(tier, seed):
 
 def minimums(tier):
     return {"ops.compared": 20000, "histories.run": 1200, "cache.invariant_checks": 20000, "tokens.scanned_outputs": 10000,
-            "cli.arrays_compared": 60, "poison.histories": 80}
+            "cli.arrays_compared": 60, "poison.histories": 80, "histories.sharing_options_objects": 500}
 
 
 # ---------------------------------------------------------------------------
@@ -180,11 +180,18 @@ def proc_src(rng, u, creator, proc):
 
 
 # ---------------------------------------------------------------------------
-def do_op(pool, op):
-    """execute one operation in the current process; returns a comparable result"""
+def do_op(pool, op, cfgs=None):
+    """execute one operation in the current process; returns a comparable result.  cfgs: the options objects of the
+    history (one per option set, reused by every operation that has these options - as a long-running caller does);
+    None: a fresh options object (references)."""
     idx, plugins, mode = op
     it = pool[idx]
-    cfg = harness.make_config(every_pel=True, allow_plugins=bool(plugins))
+    if cfgs is None:
+        cfg = harness.make_config(every_pel=True, allow_plugins=bool(plugins))
+    else:
+        if plugins not in cfgs:
+            cfgs[plugins] = harness.make_config(every_pel=True, allow_plugins=bool(plugins))
+        cfg = cfgs[plugins]
     if mode == "summary":
         r = harness.repo()
         import contextlib
@@ -246,12 +253,16 @@ def cache_snapshot():
     return out
 
 
+SHARED = {"on": False}      # does the current history reuse its options objects?  (fixed per history, also while shrinking)
+
+
 def run_history(pool, ops, refs, alltokens, fresh_import):
     """executes in a forked child; returns dict with violations and stats"""
     viol, stats = [], {"ops": 0, "cache_checks": 0, "scanned": 0, "cache_states": [], "trans": []}
     prev = None
+    cfgs = {} if SHARED["on"] else None      # every second history reuses its options objects across operations
     for k, op in enumerate(ops):
-        res = do_op(pool, op)
+        res = do_op(pool, op, cfgs)
         stats["ops"] += 1
         key = "%d/%d/%s" % (op[0], op[1], op[2])
         ref = refs[key]
@@ -290,6 +301,7 @@ def run_history(pool, ops, refs, alltokens, fresh_import):
                              "msg": "cache %s[%s] is not sys.modules[%s]" % (attr, name, name)})
         if len(viol) > 5:
             break
+    stats["shared_options"] = cfgs is not None
     return {"viol": viol, "stats": stats}
 
 
@@ -422,7 +434,9 @@ def run(spec, ctx):
     ctx.see("fresh_import.ok", sum(1 for v in fresh_import.values() if v))
     for h in range(spec["nhist"]):
         ops, poisoned = gen_history(rng, pool)
-        ctx.current = {"history": [(i, pool[i].label, p, m) for i, p, m in ops][:70]}
+        SHARED["on"] = h % 2 == 1
+        ctx.count("histories.sharing_options_objects" if SHARED["on"] else "histories.fresh_options_objects")
+        ctx.current = {"history": [(i, pool[i].label, p, m) for i, p, m in ops][:70], "options_objects_reused": SHARED["on"]}
         ctx.case(repr(ops), len(ops) >= 2, sample={"history": [(pool[i].label, "plugins" if p else "no-plugins", m) for i, p, m in ops][:8]} if h < 2 else None)
         res = forked(lambda: run_history(pool, ops, refs, alltokens, fresh_import), tmp)
         ctx.count("histories.run")
@@ -446,7 +460,8 @@ def run(spec, ctx):
                 continue
             seen.add(v["key"])
             small = shrink(pool, ops[:v["at"] + 1], refs, alltokens, fresh_import, v["key"], tmp) if ctx.n_violations < 6 else ops[:v["at"] + 1]
-            ctx.violation(v["key"], v["msg"] + "  [shrunk history: %s]" % [(pool[i].label, p, m) for i, p, m in small][:12],
+            ctx.violation(v["key"], v["msg"] + "  [shrunk history%s: %s]" % (" (options objects reused across operations)" if SHARED["on"] else "",
+                                                                          [(pool[i].label, p, m) for i, p, m in small][:12]),
                           shrunk_history=[{"pool_index": i, "label": pool[i].label, "plugins": p, "mode": m, "pel": pool[i].data[:1500]}
                                           for i, p, m in small][:8])
 
